@@ -23,7 +23,7 @@ RULE = ('histories of 100-600 DjangoCache calls (add, get, set, touch, delete, i
 DISTINCT = ('cells',)
 REQUIRED = ('calls_judged', 'histories', 'value_errors_matched', 'expired_lookups', 'default_timeout_applied',
             'version_moves', 'callable_defaults', 'forever_items_after_long_jump', 'lookups_with_expire_time_or_tag',
-            'calls_with_positional_version', 'calls_with_positional_arguments')
+            'calls_with_positional_version', 'calls_with_positional_arguments', 'calls_with_tuple_keys')
 ASSUMPTIONS = ('Django itself casts the TIMEOUT parameter to int (BaseCache.__init__), so a short integer TIMEOUT is used',
                'return values the contract leaves open (set, clear) are not compared',
                'DjangoCache(directory, params) is instantiated directly (needs no configured Django settings)')
@@ -213,7 +213,8 @@ def history(dc, sc, res, rng, params, label):
     dj = DjangoCache(d, dict(params, OPTIONS={'disk_min_file_size': 64}))
     ref = RefDjango(params['KEY_PREFIX'], params['VERSION'], params['TIMEOUT'])
     # keys and versions are namespaced by how they print: 1, True, 1.0 and '1' are four keys (and == to each other)
-    keys = ['k1', 'k2', 'n1', 'n2', 'a b', 'ü', 1, True, 1.0, '1', 0, False]
+    # (tuple keys are what DjangoCache.memoize itself sends through get / set; they print like any other key)
+    keys = ['k1', 'k2', 'n1', 'n2', 'a b', 'ü', 1, True, 1.0, '1', 0, False, ('n', 42), (), ('a', 'b', 'c'), ('n',)]
     versions = [None, None, None, 1, 2, 3, 1, 2, True, 1.0, 0, 0]           # 0 is a version like any other (and falsy)
     hist = []
     pcell = (params['TIMEOUT'], params['KEY_PREFIX'], params['VERSION'], params['SHARDS'])
@@ -250,7 +251,9 @@ def history(dc, sc, res, rng, params, label):
             op = gen.pick(rng, ['add', 'get', 'get', 'set', 'set', 'touch', 'delete', 'incr', 'decr', 'has_key', 'get_many',
                                 'set_many', 'delete_many', 'get_or_set', 'get_or_set_callable', 'incr_version',
                                 'decr_version', 'pop', 'contains', 'clear', 'evict', 'expire'])
-            numeric = isinstance(k, str) and k.startswith('n')
+            numeric = (isinstance(k, str) and k.startswith('n')) or (isinstance(k, tuple) and k[:1] == ('n',))
+            if isinstance(k, tuple):
+                res.count('calls_with_tuple_keys')
             val = rng.randrange(100) if numeric else gen.pick(rng, ['v%d' % step, 'L' * 100, ('t', step), None, 0])
             ref.now = clock.now_peek()
             state = 'live' if ref.live(ref.fk(k, ver)) is not None else ('expired' if ref.fk(k, ver) in ref.d else 'absent')
@@ -285,7 +288,8 @@ def history(dc, sc, res, rng, params, label):
                 ks = rng.sample(keys, rng.randrange(1, 4))
                 got, exp = call(lambda: spelled(rng, res, dj.get_many, [('keys', ks), ('version', V)])), ref.get_many(ks, ver)
             elif op == 'set_many':
-                data = {kk: (rng.randrange(50) if isinstance(kk, str) and kk.startswith('n') else 'm%d' % step) for kk in rng.sample(keys, rng.randrange(1, 4))}
+                data = {kk: (rng.randrange(50) if (isinstance(kk, str) and kk.startswith('n')) or (isinstance(kk, tuple) and kk[:1] == ('n',))
+                             else 'm%d' % step) for kk in rng.sample(keys, rng.randrange(1, 4))}
                 got, exp = call(lambda: spelled(rng, res, dj.set_many, [('data', data), ('timeout', TM), ('version', V)])), ref.set_many(data, t, ver)
             elif op == 'delete_many':
                 ks = rng.sample(keys, rng.randrange(1, 4))
@@ -298,6 +302,10 @@ def history(dc, sc, res, rng, params, label):
             elif op in ('incr_version', 'decr_version'):
                 base = params['VERSION'] if ver is None else ver
                 if op == 'decr_version' and base <= 0:
+                    continue
+                if isinstance(k, tuple):
+                    # incr_version is Django's own BaseCache code; its error message formats the key with %, which
+                    # fails for tuples before diskcache is involved - the contract is about text keys there
                     continue
                 got, exp = call(lambda: spelled(rng, res, getattr(dj, op), [('key', k), ('delta', 1 if rng.random() < 0.4 else OMIT), ('version', V)])), getattr(ref, op)(k, 1, ver)
                 if exp is not ValueError:
